@@ -17,8 +17,8 @@ pub struct GenParams {
     pub p_reconsider: usize,
     /// share (in 24ths) of rename-heavy scenarios
     pub rename_heavy_share: usize,
-    /// weights of the graph shapes: random dag, chain-like, layered, motif, forest, hub, ladder
-    pub shape_w: [usize; 7],
+    /// weights of the graph shapes: random dag, chain-like, layered, motif, forest, hub, ladder, star
+    pub shape_w: [usize; 8],
     /// weights Always, Output, Ephemeral
     pub kind_w: [usize; 3],
     pub p_multi: usize,
@@ -42,7 +42,7 @@ impl GenParams {
             p_misuse: 0,
             p_reconsider: 0,
             rename_heavy_share: 3,
-            shape_w: [30, 18, 13, 14, 10, 7, 8],
+            shape_w: [27, 17, 12, 13, 10, 7, 8, 6],
             kind_w: [2, 4, 4],
             p_multi: 200,
             edge_density: 350,
@@ -85,7 +85,7 @@ pub fn params_for(prop: &str, thorough: bool) -> GenParams {
         }
         "C06" => {
             p.profile = "C06";
-            p.shape_w = [26, 16, 12, 13, 10, 7, 16];
+            p.shape_w = [24, 15, 11, 12, 10, 7, 15, 6];
             p.p_reconsider = 150;
             p.p_fail = 450;
             p.p_abort = 150;
@@ -470,6 +470,55 @@ pub fn generate(seed: u64, gp: &GenParams) -> Scenario {
             }
         }
     }
+    // star (shape 7): a centre job with 3..5 upstreams and/or 3..5 downstreams of mixed kinds; a root
+    // Always job above some of the upstreams, a private Always upstream for some of the downstreams
+    let mut star_kinds: Vec<Kind> = Vec::new();
+    let mut star_edges: Vec<(usize, usize)> = Vec::new(); // (down, up)
+    if shape == 7 {
+        let mut rs = root.fork("star");
+        let mix = |rs: &mut Rng| [Kind::Always, Kind::Output, Kind::Ephemeral][rs.weighted(&[2, 4, 4])];
+        star_kinds.push(Kind::Always); // root
+        let fan_in = if rs.chance(2, 3) { 3 + rs.below(3) } else { 0 };
+        let fan_out = if fan_in == 0 || rs.chance(1, 2) { 3 + rs.below(3) } else { 0 };
+        let mut ups = Vec::new();
+        for _ in 0..fan_in {
+            let u = star_kinds.len();
+            star_kinds.push(mix(&mut rs));
+            if star_kinds[u] != Kind::Always && rs.chance(1, 2) {
+                star_edges.push((u, 0));
+            }
+            ups.push(u);
+        }
+        // private Always upstreams of the downstreams must come before the centre's downstreams
+        let n_priv = if fan_out > 0 { rs.below(3) } else { 0 };
+        let mut privs = Vec::new();
+        for _ in 0..n_priv {
+            privs.push(star_kinds.len());
+            star_kinds.push(Kind::Always);
+        }
+        let c = star_kinds.len();
+        star_kinds.push([Kind::Output, Kind::Ephemeral, Kind::Always][rs.weighted(&[4, 4, 1])]);
+        for u in ups.iter() {
+            star_edges.push((c, *u));
+        }
+        if fan_in == 0 {
+            star_edges.push((c, 0));
+        }
+        for k in 0..fan_out {
+            let d = star_kinds.len();
+            star_kinds.push(mix(&mut rs));
+            star_edges.push((d, c));
+            if k < privs.len() {
+                star_edges.push((d, privs[k]));
+            }
+            if star_kinds[d] == Kind::Ephemeral {
+                // an Ephemeral needs a consumer to matter
+                let z = star_kinds.len();
+                star_kinds.push(Kind::Output);
+                star_edges.push((z, d));
+            }
+        }
+    }
     let layer_w = 2 + r.weighted(&[4, 4, 2, 1]);
     let n_defs = match shape {
         0 => 1 + r.below(max_jobs),
@@ -478,6 +527,7 @@ pub fn generate(seed: u64, gp: &GenParams) -> Scenario {
         4 => forest_kinds.len() + r.below(3),
         5 => hub_kinds.len() + r.below(3),
         6 => ladder_kinds.len() + r.below(2),
+        7 => star_kinds.len() + r.below(2),
         _ => 3 + r.below(max_jobs.saturating_sub(2).max(1)),
     };
     let mut defs = Vec::new();
@@ -512,6 +562,12 @@ pub fn generate(seed: u64, gp: &GenParams) -> Scenario {
                     [2, 4, 3]
                 }
             }
+            7 => match star_kinds.get(i) {
+                Some(Kind::Always) => [1, 0, 0],
+                Some(Kind::Output) => [0, 1, 0],
+                Some(Kind::Ephemeral) => [0, 0, 1],
+                None => [2, 4, 3],
+            },
             6 => match ladder_kinds.get(i) {
                 Some(Kind::Always) => [1, 0, 0],
                 Some(Kind::Output) => [0, 1, 0],
@@ -630,6 +686,15 @@ pub fn generate(seed: u64, gp: &GenParams) -> Scenario {
                                 dens
                             } else {
                                 dens / 5
+                            }
+                        }
+                        7 => {
+                            if star_edges.contains(&(down, up)) {
+                                1000
+                            } else if down >= star_kinds.len() {
+                                dens
+                            } else {
+                                0
                             }
                         }
                         6 => {
